@@ -3,7 +3,7 @@ from . import modecommon, C05
 from .. import asmsrc
 
 LEVEL = "other"
-RM = {"MODE": "R-C02-MODE", "RT": "R-C02-MODE", "PREFIX": "R-C02-MODE", "LEN": None, "ADVANCE": "R-C02-MODE", "TAGPOS": "R-C02-MODE", "INPLACE": None, "OUTRANGE": None, "NONCE2": None}
+RM = {"MODE": "R-C02-MODE", "RT": "R-C02-MODE", "WIPESTART": "R-C02-MODE", "PREFIX": "R-C02-MODE", "LEN": None, "ADVANCE": "R-C02-MODE", "TAGPOS": "R-C02-MODE", "INPLACE": None, "OUTRANGE": None, "NONCE2": None}
 RM = {k: v for k, v in RM.items() if v}
 
 
